@@ -9,7 +9,8 @@ From Gen Require Import Elements SmilesTables.
 From Coq Require Import Permutation.
 From Proofs Require Import WriterProofs WriterProofsAtom WriterProofsTokens WriterProofsStream WriterProofsClosures WriterProofsRefuted
                            WriterWfAtoms WriterWfFlatten WriterWfStream WriterWfDfs WriterWfEvents WriterWfTree WriterWfClosures WriterWfParens
-                           WriterWfComplete WriterWfFlatten2 WriterWfDistinct WriterWfFinal WriterWfRun.
+                           WriterWfComplete WriterWfFlatten2 WriterWfDistinct WriterWfFinal WriterWfRun
+                           WriterWfFuelDfs WriterWfFuelFlat WriterWfFuelRun WriterWfFuelBfs WriterSeqFlatten WriterSeqTree.
 Import ListNotations.
 Open Scope Z_scope.
 
@@ -402,3 +403,82 @@ Theorem C02_writer_order_permutation : forall g w tb o tabs, wf_mol g = true ->
   forall out order, smiles_tokens g w tb o tabs = Ok (Some (out, order)) -> Permutation order (ids g).
 Proof. exact writer_order_permutation. Qed.
 Print Assumptions C02_writer_order_permutation.
+
+(* ---- fuel sufficiency (third round): the fuelled loops of the model end within their fuel ---- *)
+
+(* the DFS `while stack:` ends within dfs_fuel = n_dbonds + 2 n_atoms + 2 iterations (decreasing measure: pending children on
+   the stack + unvisited atoms weighted by their degree) *)
+Theorem C02_traverse_total : forall g w tb o all st,
+  NoDup (ws_atoms st) -> (forall n, In n (ws_atoms st) -> In n (ids g)) -> ws_atoms st <> [] ->
+  (forall n m, In n (ws_atoms st) -> In m (nbr_ids g n) -> In m (ws_atoms st)) ->
+  exists t, traverse g w tb o all st = Ok t.
+Proof. exact traverse_total. Qed.
+Print Assumptions C02_traverse_total.
+
+(* the flattening loop returns within fl_fuel = 3 n_atoms + 3 iterations and none of its IndexError branches is reachable *)
+Theorem C02_flatten_total : forall g w tb o all st t, nbr_nodup g -> loop_free g ->
+  NoDup (ws_atoms st) -> (forall n, In n (ws_atoms st) -> In n (ids g)) ->
+  (forall n m, In n (ws_atoms st) -> In m (nbr_ids g n) -> In m (ws_atoms st)) ->
+  traverse g w tb o all st = Ok t -> exists smi, flatten g t = Ok smi.
+Proof. exact flatten_total. Qed.
+Print Assumptions C02_flatten_total.
+
+(* unconditional form of C02_writer_wellformed: for every state the run can be in, the two loops return and what they return
+   is well-formed *)
+Theorem C02_component_loops_total : forall g w tb o, wf_mol g = true -> forall st, RI g st -> ws_atoms st <> [] ->
+  exists t smi, traverse g w tb o (ids g) st = Ok t /\ flatten g t = Ok smi /\ component_wf g (ws_atoms st) t smi.
+Proof. exact component_loops_total. Qed.
+Print Assumptions C02_component_loops_total.
+
+(* the whole writer on a well-formed molecule: it returns, or it returns the error of the closure numbering (heappop from the
+   empty heap) or of the token formatting (_format_atom / _format_bond / __ct_map) of one component - never a fuel error *)
+Theorem C02_writer_total : forall g w tb o tabs, wf_mol g = true ->
+  (exists r, smiles_tokens g w tb o tabs = Ok r) \/
+  (exists e st, smiles_tokens g w tb o tabs = Err e /\ RI g st /\ ws_atoms st <> [] /\ component_error g w tb o tabs st e).
+Proof. exact writer_total. Qed.
+Print Assumptions C02_writer_total.
+
+(* the BFS that labels the component with distances empties its queue within n_atoms + 1 iterations: more fuel never changes it *)
+Theorem C02_bfs_fuel_sufficient : forall g st start k, wf_mol g = true -> RI g st -> In start (ws_atoms st) ->
+  bfs g (S (n_atoms g) + k) [(start, 1)] (zset (ws_seen st) start 0) = bfs g (S (n_atoms g)) [(start, 1)] (zset (ws_seen st) start 0).
+Proof. exact bfs_fuel_sufficient. Qed.
+Print Assumptions C02_bfs_fuel_sufficient.
+
+(* ---- towards read_write_graph (third round): sequence-level flattening and the tree of the traversal ---- *)
+(* from here on the reader's own models (C03) are in scope; their names shadow Writer.v's copies *)
+From Model Require Import Tokenize Parser SmilesAst.
+
+(* the flattening of ANY traversal, as a sequence: TAtom start followed by the serialisation Ser of the tree below the start atom
+   (children c1 .. ck of n are written  ( bond c1 Ser(c1) ) ... ( bond ck-1 Ser(ck-1) ) bond ck Ser(ck) ) *)
+Theorem C02_flatten_ser : forall g t smi, flatten g t = Ok smi ->
+  exists l, Ser (ds_edges (tr_dfs t)) (tr_start t) l /\ smi = TAtom (tr_start t) :: l.
+Proof. exact flatten_ser. Qed.
+Print Assumptions C02_flatten_ser.
+
+(* the tree of the traversal in C03's abstract syntax (Model.SmilesAst): for any assignment of reader tokens to atoms (atom token,
+   ring-bond digits) and tree bonds, the serialisation read as reader tokens is the spelling of a well-formed tree whose shape
+   is the table `edges` (TreeOf) *)
+Theorem C02_component_tree : forall edges aty atk rings bnd,
+  (forall n, zmem (aty n) [0; 8] = true) -> (forall n, forallb (fun r : option token * Z => bond_ok (fst r)) (rings n) = true) ->
+  (forall p c, bond_ok (bnd p c) = true) ->
+  forall start l, Ser edges start l ->
+  exists t, TreeOf edges aty atk rings bnd start t /\ wf_tree t = true /\ spell t = ctoks aty atk rings bnd (TAtom start :: l).
+Proof. exact component_tree. Qed.
+Print Assumptions C02_component_tree.
+
+(* read_write_graph, the part that is proved: with C03's read_spell_denote, the reader's parser (Model.Parser.parse) run on the
+   reader tokens of the token list of ANY traversal returns the denotation (SmilesAst.denote, structural recursion over the tree)
+   of the tree of the traversal.
+   _partial - missing for read_write_graph: (i) that C03's tokenizer model (Model.Tokenize) turns the written TEXT into these
+   tokens (C02_writer_tokenizes is about Writer.v's own copy of the tokenizer); (ii) the evaluation of `denote` on this tree to
+   the atom list in written order and the bond list (tree bonds + ring closures, using C02_writer_closure_numbers for the
+   digit table of the parser); (iii) Reader.v (create_molecule) from the parsed record to the molecule; (iv) several
+   components (the dot) *)
+Theorem C02_read_write_graph_partial : forall g t smi aty atk rings bnd strong,
+  (forall n, zmem (aty n) [0; 8] = true) -> (forall n, forallb (fun r : option token * Z => bond_ok (fst r)) (rings n) = true) ->
+  (forall p c, bond_ok (bnd p c) = true) ->
+  flatten g t = Ok smi ->
+  exists tr, TreeOf (ds_edges (tr_dfs t)) aty atk rings bnd (tr_start t) tr /\
+             parse (ctoks aty atk rings bnd smi) strong = denote strong tr.
+Proof. exact flatten_parse_denote. Qed.
+Print Assumptions C02_read_write_graph_partial.
